@@ -264,6 +264,7 @@ class Contract:
         self.bounded_only = bool(d.get("bounded_only", False))
         self.known = d.get("known", {})  # obligation name -> known-finding id
         self.assumes = list(d.get("assumes", []))  # free-text assumption list reported in evidence
+        self.max_paths = int(d.get("max_paths", 1500))
 
     @property
     def func(self):
@@ -315,6 +316,7 @@ class Lemma:
         self.note = ""
         self.bounded_only = False
         self.native_call = None
+        self.max_paths = int(d.get("max_paths", 1500))
 
     @property
     def id(self):
